@@ -48,8 +48,11 @@ LIVELOCK_REPEATS = 400
 class Layout:
     def __init__(self, sharedata, k, n, size, segsize):
         (ver,) = struct.unpack(">L", sharedata[:4])
-        assert ver == 1, ver
-        f = struct.unpack(">LLLLLLLLL", sharedata[:0x24])
+        assert ver in (1, 2), ver
+        self.ver = ver
+        self.w = 4 if ver == 1 else 8                       # width of the size / offset fields
+        self.hdr = 0x24 if ver == 1 else 0x44
+        f = struct.unpack(">LLLLLLLLL", sharedata[:0x24]) if ver == 1 else struct.unpack(">LQQQQQQQQ", sharedata[:0x44])
         self.block_size_field, self.data_size_field = f[1], f[2]
         names = ["data", "plaintext_hash_tree", "crypttext_hash_tree", "block_hashes", "share_hashes", "uri_extension"]
         self.off = dict(zip(names, f[3:]))
@@ -60,10 +63,15 @@ class Layout:
         # cross-check with the code's own layout computation
         ht = IncompleteHashTree(n)
         nsh = len(ht.needed_hashes(0, include_leaf=True))
-        wbp = make_write_bucket_proxy(None, None, mathutil.div_ceil(size, k), self.block_size, self.numsegs, nsh, 0)
+        from allmydata.immutable import layout as _layout
+        _layout.FORCE_V2 = (ver == 2)
+        try:
+            wbp = make_write_bucket_proxy(None, None, mathutil.div_ceil(size, k), self.block_size, self.numsegs, nsh, 0)
+        finally:
+            _layout.FORCE_V2 = False
         assert wbp._offsets == self.off, (wbp._offsets, self.off)
-        (self.ueb_len,) = struct.unpack(">L", sharedata[self.off["uri_extension"]:self.off["uri_extension"] + 4])
-        self.end = self.off["uri_extension"] + 4 + self.ueb_len
+        (self.ueb_len,) = struct.unpack(">L" if ver == 1 else ">Q", sharedata[self.off["uri_extension"]:self.off["uri_extension"] + self.w])
+        self.end = self.off["uri_extension"] + self.w + self.ueb_len
 
     def block_range(self, seg):
         start = self.off["data"] + seg * self.block_size
@@ -75,14 +83,14 @@ class Layout:
         o = self.off
         d = {"version": (0, 4)}
         for i, nm in enumerate(["off_data", "off_plaintext", "off_crypttext", "off_blockhashes", "off_sharehashes", "off_ueb"]):
-            d[nm] = (0x0c + 4 * i, 4)
+            d[nm] = ((0x0c + 4 * i, 4) if self.ver == 1 else (0x14 + 8 * i, 8))
         for s in range(self.numsegs):
             d["block%d" % s] = self.block_range(s)
         d["crypttext_hash_tree"] = (o["crypttext_hash_tree"], o["block_hashes"] - o["crypttext_hash_tree"])
         d["block_hashes"] = (o["block_hashes"], o["share_hashes"] - o["block_hashes"])
         d["share_hashes"] = (o["share_hashes"], o["uri_extension"] - o["share_hashes"])
-        d["ueb_len"] = (o["uri_extension"], 4)
-        d["ueb_body"] = (o["uri_extension"] + 4, self.ueb_len)
+        d["ueb_len"] = (o["uri_extension"], self.w)
+        d["ueb_body"] = (o["uri_extension"] + self.w, self.ueb_len)
         return {k: v for k, v in d.items() if v[1] > 0}
 
 
@@ -158,7 +166,14 @@ def do_upload(workdir, data, k, n, nservers, segsize, seed, key=None, tamper_seg
     if tamper_seg is not None:
         encode.Encoder._gather_data = tampering
     try:
-        res = g.run(g.uploader.upload(u))
+        # every fifth file is stored in the 64-bit share layout (v2, what files beyond 4 GiB get): the downloader, which
+        # guesses the layout from the cap before it has seen a share, must read both
+        from allmydata.immutable import layout as _layout
+        _layout.FORCE_V2 = (seed % 5 == 2)
+        try:
+            res = g.run(g.uploader.upload(u))
+        finally:
+            _layout.FORCE_V2 = False
     finally:
         encode.Encoder._gather_data = orig
     up = Upload()
